@@ -27,6 +27,16 @@ Theorem onentries_faithful :
 Proof. intros. now apply run_faithful. Qed.
 Print Assumptions onentries_faithful.
 
+(* responses are values: whatever has been sent on the channel after the first calls (steps ... ks1) stays, unchanged and
+   in place, a prefix of the response sequence of the whole request, whatever calls follow (even a panicking one).
+   The implementation must therefore not touch a response after sending it; the harness checks that (chunks_stable). *)
+Theorem sent_responses_are_stable :
+  forall fp enc_len CS cache_add threshold ctx_ttl (st : chunk * CS) (ks1 ks2 : list call),
+  exists rest, result_chunks (run fp enc_len CS cache_add threshold ctx_ttl st (ks1 ++ ks2)) =
+               (fst (steps fp enc_len CS cache_add threshold ctx_ttl st ks1) ++ rest)%list.
+Proof. intros. apply sent_prefix_stable. Qed.
+Print Assumptions sent_responses_are_stable.
+
 (* decode_faithful_<proto>: the response sequence of each parser is a list of rectangular chunks whose
    concatenated rows are one row per submitted entry (entries_<proto> body), in submission order, with the entry's
    exact timestamp / line / value bits / type and the fingerprint (and TTL) of the entry's own stream *)
